@@ -39,6 +39,12 @@ func GenerateAnte(r *rng.R, steps int) []string {
 			g.emit("setowner %s %s %s", e(c), e(t), rng.Pick(r, accs))
 		}
 	}
+	// the first configured fee denomination ("setl") in some hands, so that an offer can cover more than one configured denomination
+	for _, a := range accs[:6] {
+		if r.P(2, 3) {
+			g.emit("fund %s %d =setl", a, 50+r.N(100000))
+		}
+	}
 	// one tenant to start with, created by a proper settlement transaction
 	g.tx("auto", "-", "2000000000000:uusdc", 1000000100000, fmt.Sprintf("createtenant(a1~=uusdc~%d)", 1+r.N(3)))
 	g.tenants = append(g.tenants, &tenant{id: 1, admins: []string{"a1"}, denom: "uusdc", method: "native"})
@@ -135,7 +141,20 @@ func (g *anteG) settlementTx() {
 	}
 	need := gasNeed // price of uusdc is 1
 	var fee string
-	switch r.N(9) {
+	needSetl := gasNeed / 10000 // price of setl is 0.0001
+	switch r.N(13) {
+	case 9:
+		fee = fmt.Sprintf("%d:setl,%d:uusdc", needSetl+uint64(r.N(3)), need+uint64(r.N(50000))) // both configured denominations covered
+	case 10:
+		fee = fmt.Sprintf("%d:setl", needSetl+uint64(r.N(3)))
+	case 11:
+		if needSetl > 0 {
+			fee = fmt.Sprintf("%d:setl,%d:uusdc", needSetl-1, need) // the first is short, the second covers
+		}
+	case 12:
+		if need > 0 {
+			fee = fmt.Sprintf("%d:setl,%d:uusdc", needSetl, need-1)
+		}
 	case 0:
 		fee = fmt.Sprintf("%d:uusdc", need)
 	case 1:
@@ -287,7 +306,7 @@ func (g *anteG) mixedTx() {
 	g.tx("auto", "-", fee, 400000, strings.Join(ms, "|"))
 }
 
-func (g *anteG) innerMsg() string {
+func (g *anteG) innerMsg(grantee string) string {
 	r := g.r
 	switch r.N(6) {
 	case 0, 1:
@@ -298,6 +317,9 @@ func (g *anteG) innerMsg() string {
 		return m
 	case 4:
 		return g.sendMsg()
+	}
+	if r.P(1, 2) {
+		return fmt.Sprintf("createval(%s)", grantee) // the executing account's own message needs no grant
 	}
 	return fmt.Sprintf("createval(%s)", rng.Pick(r, accs))
 }
@@ -312,7 +334,7 @@ func (g *anteG) execTx() {
 	var inner []string
 	k := 1 + r.N(2)
 	for i := 0; i < k; i++ {
-		inner = append(inner, g.innerMsg())
+		inner = append(inner, g.innerMsg(grantee))
 	}
 	expr := strings.Join(inner, "|")
 	for d := 0; d < depth; d++ {
